@@ -587,6 +587,7 @@ theorem step_FK (st : State) (op : Op) (a : Addr) :
           have h1' : ¬ st.self = d := fun e => h1 e.symm
           simp [balOf, htk, h1']
     · exact FK.refl
+  | upgradeMigrate au => rw [step_upgradeMigrate_fst]; exact FK.refl
 
 /-! ### custody -/
 
@@ -1049,6 +1050,7 @@ def OwnerOp : Op → Prop
   | .removeTrusted _ _ => True
   | .transferOwnership _ _ => True
   | .registerCanonical _ => True
+  | .upgradeMigrate _ => True
   | _ => False
 
 theorem step_tokens_other (st : State) (op : Op) (h : OwnerOp op) : (step H S k st op).1.tokens = st.tokens := by
@@ -1089,6 +1091,7 @@ theorem step_tokens_other (st : State) (op : Op) (h : OwnerOp op) : (step H S k 
       · cases hx
       · cases hx; rfl
     · rfl
+  | upgradeMigrate au => rw [step_upgradeMigrate_fst]
   | _ => exact absurd h id
 
 end Cgp.Proofs.C05
